@@ -323,6 +323,11 @@ def templates():
 
     @reg("to_copy")
     def _(p, a):
+        if a.ndim == 4 and p.rng.random() < 0.5:
+            # memory-format moves of image-like tensors (what model.to(memory_format=channels_last) applies to weights)
+            if p.rng.random() < 0.5:
+                return lambda: a.to(memory_format=torch.channels_last)
+            return lambda: a.contiguous(memory_format=torch.channels_last)
         c = p.rng.integers(3)
         if c == 0:
             return lambda: a.to("cpu", copy=True)
